@@ -60,6 +60,10 @@ Theorem C08_decider_sound : forall i o, check_C08 i o = true -> C08_holds i o.
 Proof. exact RenderProof.decider_sound. Qed.
 Print Assumptions C08_decider_sound.
 
+Theorem C08_decider_complete : forall i o, C08_holds i o -> check_C08 i o = true.
+Proof. exact RenderProof.decider_complete. Qed.
+Print Assumptions C08_decider_complete.
+
 Theorem C08_main : forall i, inclass_C08 i = true -> C08_holds i (model_C08 i).
 Proof. exact RenderProof.model_holds. Qed.
 Print Assumptions C08_main.
@@ -100,10 +104,25 @@ Print Assumptions C08_eval_refuted_drop_table_types.
    constraint_name token: invoked directly, the index keeps its plain name; the rendered op.drop_index('ix1', ...) knows
    no expressions, DropIndexOp.to_index substitutes a dummy table column and the convention renames the index *)
 Definition w_ixname : c08_in :=
-  (mkCfg (lit "op") (lit "sa") false true, [TOp (id0 "t") None (ODropIndex (Plain (id0 "ix1")) None false)]).
+  (mkCfg (lit "op") (lit "sa") false true, [TOp (id0 "t") None (ODropIndex (Plain (id0 "ix1")) None false (mkIxKw None None None))]).
 Theorem C08_eval_refuted_unbound_index_name : ~ C08_holds w_ixname (model_C08 w_ixname).
 Proof. intros [_ [H _]]. vm_compute in H. discriminate. Qed.
 Print Assumptions C08_eval_refuted_unbound_index_name.
+
+(* op.execute is rendered with the configured alembic prefix: it reads back whatever the prefix is *)
+Theorem C08_execute_any_prefix : forall c sql, eval_stmts c (render_ops c [TExecute sql]) = Some [TExecute sql].
+Proof. intros c sql. apply (RenderProof.eval_render c [TExecute sql]). reflexivity. Qed.
+Print Assumptions C08_execute_any_prefix.
+
+(* a plain FetchedValue() server default is rendered with the sqlalchemy prefix and reads back *)
+Theorem C08_fetched_value_roundtrip : forall c tn,
+  can_ident tn = true -> eval_stmts c (render_ops c [TOp tn None (OAddColumn (col0 (Some SdFetched)))])
+  = Some [TOp tn None (OAddColumn (col0 (Some SdFetched)))].
+Proof.
+  intros c tn H. apply (RenderProof.eval_render c [TOp tn None (OAddColumn (col0 (Some SdFetched)))]).
+  unfold canonical. cbn [fst snd forallb can_top]. unfold can_tbl_op. rewrite H. reflexivity.
+Qed.
+Print Assumptions C08_fetched_value_roundtrip.
 
 (* ---------------------------------------------------------------- non-vacuity *)
 Definition ex_table : table :=
@@ -115,9 +134,14 @@ Definition ex_table : table :=
 Definition ex_input : c08_in :=
   (mkCfg (lit "op") (lit "sa") true true,
    [TCreateTable ex_table;
-    TModify (id0 "t") (Some (id0 "s")) [(id0 "t", Some (id0 "s"), OCreateIndex (Conv (lit "ix")) [IxCol (id0 "a b"); IxExpr (lit "lower(x)")] (Some true) None);
-                                        (id0 "t", Some (id0 "s"), OCreateTableComment (Some (lit "it's")) None)]]).
-Example C08_main_nonvacuous : inclass_C08 ex_input = true /\ length (render_ops (fst ex_input) (snd ex_input)) = 2%nat.
+    TModify (id0 "t") (Some (id0 "s")) [(id0 "t", Some (id0 "s"), OCreateIndex (Conv (lit "ix")) [IxCol (id0 "a b"); IxExpr (lit "lower(x)")] (Some true) None
+                                                                    (mkIxKw (Some (lit "gin")) (Some (lit "x > 'it''s'")) (Some true)));
+                                        (id0 "t", Some (id0 "s"), OAddColumn (mkCol (id0 "i") (mkTy TySa [lit "Integer"] []) (Some (SdIdentity
+                                           (mkIdn (Some true) None (Some (false, lit "3")) (Some (true, lit "2")) None None None None (Some false) None None)))
+                                           None false false None));
+                                        (id0 "t", Some (id0 "s"), OCreateTableComment (Some (lit "it's")) None)];
+    TExecute (lit "update t set c = 'it''s'")]).
+Example C08_main_nonvacuous : inclass_C08 ex_input = true /\ length (render_ops (fst ex_input) (snd ex_input)) = 3%nat.
 Proof. vm_compute. auto. Qed.
 Example C08_tokens_nonvacuous :
   wf_cfg (fst ex_input) = true /\ forallb wf_top (snd ex_input) = true /\ forallb top_ty_ok (snd ex_input) = true.
